@@ -31,6 +31,7 @@ value `Env.cfgDefault` read at call time.  The model is tied to the code by `har
 -/
 import SqlLineage.Model.Qualify
 import SqlLineage.Model.Stmt
+import SqlLineage.Model.Assemble
 import SqlLineage.Spec.Tables
 
 namespace SqlLineage.Props.C14
@@ -99,7 +100,7 @@ def fallbackOwner (importDefault q : String) : DS × String :=
 theorem toSourceColumns_fallback (importDefault : String) (m : AliasMap) (name c q : String) (k : Nat)
     (hm : amGet m q = none) :
     toSourceColumns importDefault m ⟨name, [(c, some q)], false⟩ k =
-      [Column.mk1 (Ident.escapeS c) (some (fallbackOwner importDefault q))] := by
+      [Column.mk1 c (some (fallbackOwner importDefault q))] := by
   simp [toSourceColumns, hm, pushCol, fallbackOwner]
 
 /-- REPAIRED code (`importDefault := defaultSchema env`): under default `S` the fallback owner is exactly the table the
@@ -307,6 +308,64 @@ theorem spec_qualified_stmt_unaffected (env : Env) (S S' : String) (h : Plain S)
   ⟨(spec_reads_agree (agree_default env S S' h) s).symm.trans (spec_reads_agree (agree_default env S "" h) s),
    (spec_writes_agree (agree_default env S S' h) s).symm.trans (spec_writes_agree (agree_default env S "" h) s)⟩
 
+/-! ### the walk itself -/
+
+/-- `mkTable` under default `S` = `mkTable` of the qualified name under no default, for every name -/
+theorem mkTable_qName (env : Env) (S : String) (h : Plain S) (parts : List String) (a : Option String) :
+    mkTable { env with cfgDefault := S } parts a = mkTable { env with cfgDefault := "" } (qName S parts) a := by
+  unfold qName
+  by_cases hb : isBare parts = true
+  · rw [if_pos hb, mkTable_bare _ parts a hb, ← mkTable_default_eq_qualified env S _ a h]
+    rw [mkTable_bare _ [parts.getLast?.getD ""] a (by simp [isBare])]
+    simp
+  · rw [if_neg hb]; exact mkTable_notBare _ _ parts a (by simpa using hb)
+
+/-- `qualifyStmt` does not change the statement type the dispatch looks at -/
+theorem stmtType_qualify (S : String) (s : Stmt) : stmtType (qualifyStmt S s) = stmtType s := by
+  cases s with
+  | query q b => cases q <;> cases b <;> simp [qualifyStmt, qQuery, stmtType]
+  | drop v ie tgt => cases v <;> simp [qualifyStmt, stmtType]
+  | _ => simp [qualifyStmt, stmtType]
+
+/-- the statement contains a query the select / CTE extractors walk -/
+def hasQuery : Stmt → Bool
+  | .query .. | .insert .. | .ctas .. | .createView .. => true
+  | _ => false
+
+/-- `walk_default_eq_qualify`, part 1: for every statement that contains no query (INSERT … VALUES, CREATE TABLE [LIKE],
+    DROP, ALTER … RENAME, RENAME TABLE, no‑op and unsupported statements; UPDATE / MERGE / COPY are outside the modelled walk
+    and answer the same error on both sides) the statement holder GRAPH under default `S` equals the holder graph of the
+    qualified statement under no default — tables, tags, columns (incl. provider‑given ones), edges, order.
+
+    Full statement (not proved for statements with a query, see `walk_flat_default_eq_qualify_partial` and the note there):
+      ∀ s, tableView (analyze {env with cfgDefault := S} silent s) = tableView (analyze {env with cfgDefault := ""} silent (qualifyStmt S s)) -/
+theorem walk_default_eq_qualify_partial (env : Env) (S : String) (h : Plain S) (silent : Bool) (s : Stmt)
+    (hs : hasQuery s = false) :
+    analyze { env with cfgDefault := S } silent s = analyze { env with cfgDefault := "" } silent (qualifyStmt S s) := by
+  have hT := stmtType_qualify S s
+  unfold analyze
+  rw [hT]
+  cases hd : dispatch (stmtType s) with
+  | none => rfl
+  | some c =>
+    cases s with
+    | query _ _ => simp [hasQuery] at hs
+    | insert _ _ _ _ _ _ => simp [hasQuery] at hs
+    | ctas _ _ _ _ _ => simp [hasQuery] at hs
+    | createView _ _ _ _ => simp [hasQuery] at hs
+    | insertValues tgt cols rows => simp only [qualifyStmt, ← mkTable_qName env S h]
+    | createTable tgt ine cols => simp only [qualifyStmt, ← mkTable_qName env S h]
+    | createTableLike tgt src => simp only [qualifyStmt, ← mkTable_qName env S h]
+    | update _ _ _ _ _ => simp only [qualifyStmt]
+    | merge _ _ _ _ _ _ => simp only [qualifyStmt]
+    | copy _ _ => simp only [qualifyStmt]
+    | drop v ie tgt => simp only [qualifyStmt, exDrop, ← mkTable_qName env S h]
+    | alterRename x y => simp only [qualifyStmt, exRename, List.foldl, ← mkTable_qName env S h]
+    | renameTable ps =>
+      simp only [qualifyStmt, exRename, List.foldl_map, ← mkTable_qName env S h]
+    | noop _ _ => simp only [qualifyStmt]
+    | unsupported _ => simp only [qualifyStmt]
+
 /-- D17 (unrepaired code, scoped override): `importDefault` is still the import‑time value, so the owner of `zz.a` in
     `select zz.a from t1` under default `sx` is `<default>.zz`, not the `sx.zz` that the qualified spelling denotes -/
 theorem dev_D17 :
@@ -330,5 +389,41 @@ theorem dev_D17_walk :
     hasColNode (analyze { cfgDefault := "sx", importDefault := "sx" } false d17Stmt) "sx.zz.a" = true ∧
     hasColNode (analyze { cfgDefault := "sx", importDefault := "sx" } false d17Stmt) "<default>.zz.a" = false := by
   decide +kernel
+
+/-! ### non‑vacuity -/
+
+example : Plain "sx" := ⟨by decide, by decide⟩
+example : Plain "s1" := ⟨by decide, by decide⟩
+/-- a quoted mixed‑case name is not stable (`"Sx"` ↦ `Sx` ↦ `sx`): outside the hypothesis -/
+example : Ident.escapeS "\"Sx\"" ≠ "\"Sx\"" := by decide
+
+/-- `insert into tgt with c1 as (select a from t1), c2 as (select a from c1) select x.a from c2 x join s2.t2 using (a)
+     join (select * from c3) d using (a) where a in (select a from t3)`:
+    bare base tables (t1, c3 — not a CTE —, t3, tgt), CTE references (c1, c2 — left alone), an already qualified name -/
+def exStmt : Stmt :=
+  .insert .insertInto false ["tgt"] none
+    (.withq [.mk "c1" (.select false [.mk (.col [] "a") none false] [.mk (.table ["t1"] none false) []] none [] none),
+             .mk "c2" (.select false [.mk (.col [] "a") none false] [.mk (.table ["c1"] none false) []] none [] none)]
+      (.select false [.mk (.col ["x"] "a") none false]
+        [.mk (.table ["c2"] (some "x") false)
+          [.mk "join" (.table ["s2", "t2"] none false) none ["a"],
+           .mk "join" (.derived (.select false [.mk (.star []) none false] [.mk (.table ["c3"] none false) []] none [] none)
+              (some "d") false) none ["a"]]]
+        (some (.inSubq (.col [] "a") false
+          (.select false [.mk (.col [] "a") none false] [.mk (.table ["t3"] none false) []] none [] none)))
+        [] none)) false
+
+example : Spec.reads { cfgDefault := "sx" } exStmt = ["sx.t1", "s2.t2", "sx.c3", "sx.t3"] ∧
+    Spec.reads { cfgDefault := "" } (qualifyStmt "sx" exStmt) = ["sx.t1", "s2.t2", "sx.c3", "sx.t3"] ∧
+    Spec.writes { cfgDefault := "" } (qualifyStmt "sx" exStmt) = ["sx.tgt"] ∧
+    Render.stmt {} (qualifyStmt "sx" exStmt) =
+      "insert into sx.tgt with c1 as (select a from sx.t1), c2 as (select a from c1) select x.a from c2 x join s2.t2 using (a) " ++
+      "join (select * from sx.c3) d using (a) where a in (select a from sx.t3)" := by decide +kernel
+
+/-- a query‑free statement inside `walk_default_eq_qualify_partial` whose holder is not trivial -/
+example : hasQuery (.createTableLike ["t1"] ["s2", "t2"]) = false ∧
+    (analyze { cfgDefault := "sx" } false (.createTableLike ["t1"] ["s2", "t2"])).toOption.map
+      (fun g => (Assemble.stmtRead g, Assemble.stmtWrite g)) =
+      some ([.ds (.table "s2" "t2")], [.ds (.table "sx" "t1")]) := by decide +kernel
 
 end SqlLineage.Props.C14
